@@ -1183,6 +1183,64 @@ def GENOP(ctx):
         ctx.case(line, True, "gen:" + f)
 
 
+def _wire_acc(rows):
+    return "M[" + "|".join(";".join("i%d" % x for x in r) for r in rows) + "]"
+
+
+def _wire_arr(xs):
+    return "A[" + ";".join("i%d" % int(x) for x in xs) + "]"
+
+
+def GENSW(ctx):
+    """validation of the translator on dsw/spiderweb.py: the definitions GENERATED from set_vt / encode /
+    decode (DswModel.Gen.Spiderweb, driver operation `gen`) against the real functions: well-formed and
+    malformed graphs, both modes, tables, checks, need_path, foreign characters, wrong checks."""
+    rng = ctx.rng
+    for it in range(ctx.n(500, 20000)):
+        k = rng.choice([1, 2, 2, 3])
+        r = rng.random()
+        if r < 0.55:
+            fast = rng.random() < 0.4
+            g, v = gen.rand_wellformed(rng, k, no_deg3=fast)
+        else:
+            fast = rng.random() < 0.5
+            g = rng.choice([gen.rand_arc_subset, gen.rand_profile_graph])(rng, k)
+            v = rng.randrange(g.n)
+        rows = g.rows()
+        tbl = gen.rand_table(rng, k)
+        t_tok = "n" if tbl is None else _wire_acc(tbl)
+        bits = gen.rand_bits(rng, 24)
+        # messages that a dead-end or information-free region would walk forever are cut short by the
+        # model's fuel but not by the implementation: only walk them when the graph is well formed from v
+        safe = g.well_formed_from(v)
+        vt = rng.choice([0, 0, 1, 2, 5, 9])
+        path = rng.random() < 0.3
+        verbose = rng.random() < 0.2
+        if safe or len(bits) == 0 or (not fast and not any(bits)):
+            line = "gen encode %s %s i%d %s i%d %s %s %s" % (_wire_arr(bits), _wire_acc(rows), v, "bT" if fast else "bF", vt,
+                                                             t_tok, "bT" if path else "bF", "bT" if verbose else "bF")
+            out = ctx.corr(line)
+            ctx.case(line, out.startswith("ok"), "gen:encode")
+        # decode: walks, edited walks, random and foreign strings, right / wrong / absent check
+        n = rng.choice([0, 1, 2, 5, 9, 14])
+        s = gen.rand_walk(rng, g, v, n) if rng.random() < 0.6 else gen.rand_dna(rng, n, NUC if rng.random() < 0.8 else "ACGTN")
+        if len(s) > 1 and rng.random() < 0.3:
+            s = gen.apply_edit(s, gen.rand_edit(rng, s))
+        chk = "n"
+        if rng.random() < 0.4:
+            st, c = proto.guarded(lambda: SW.set_vt(s, rng.choice([1, 2, 4])))
+            if st == "ok":
+                chk = "s" + (c if rng.random() < 0.7 else gen.rand_dna(rng, len(c)))
+        L = rng.choice([0, 1, 2, 7, 8, 16, 30])
+        line = "gen decode s%s i%d %s i%d %s %s %s bF" % (s, L, _wire_acc(rows), v, "bT" if fast else "bF", chk, t_tok)
+        out = ctx.corr(line)
+        ctx.case(line, out.startswith("ok"), "gen:decode")
+        s2 = gen.rand_dna(rng, rng.choice([0, 1, 2, 3, 8, 40]), NUC if rng.random() < 0.9 else "ACGTN")
+        line = "gen set_vt s%s i%d" % (s2, rng.choice([1, 1, 2, 3, 5, 12, 33, 40]))
+        ctx.corr(line)
+        ctx.case(line, True, "gen:set_vt")
+
+
 def C16(ctx):
     rng = ctx.rng
 
